@@ -360,3 +360,13 @@ Example C11_example_wd_as_file :
   lookup (st_fs (fst (pushes cfg_fixed false wd0 cwd0 (mkStore fs3 [] []) os_wd_as_file))) wd0 = Some NDir /\
   view_at (st_fs (fst (pushes cfg_fixed false wd0 cwd0 (mkStore fs3 [] []) os_wd_as_file))) [b "victim"] = view_at fs3 [b "victim"].
 Proof. exact wd_as_file_ok. Qed.
+
+(* the hypothesis of C11_confined is satisfiable by every tree whose working directory is reached
+   through real directories (declare all inodes tainted; a smaller taint gives a stronger conclusion) *)
+Theorem C11_inv_any_tree :
+  forall (wd : path) (f : fsys),
+    (forall q r, wd = q ++ r -> q <> [] -> lookup f q = Some NDir) ->
+    (forall p i, lookup f p = Some (NFile i) -> i < nexti f) ->
+    Inv wd (with_taint (seq 0 (nexti f)) f).
+Proof. exact inv_any_tree. Qed.
+Print Assumptions C11_inv_any_tree.
